@@ -169,7 +169,7 @@ def diagrams(tier: str) -> list[Diagram]:
     # three components: seeded sample of declaration-form triples
     triples = list(itertools.product(range(len(DECL_FORMS)), repeat=3))
     rnd.shuffle(triples)
-    k = 18 if tier == "quick" else 120
+    k = 18 if tier == "quick" else len(triples)
     for n, d in enumerate(triples[:k]):
         ns = list(NAME_SETS.values())[n % 3]
         out.append(Diagram(ns, d, n % 4, n % 2 == 0, n % 6))
